@@ -6,9 +6,11 @@ the decoder's calls into the library give (`JSrc`):
 
 * `refused`  - `isArray`'s first `Token()` is an error (`io.EOF`: nothing but white space; a syntax error) or is not a
                delimiter: `newJsonlineDecoder` returns that error;
-* `array es` - the first token is `[`: the whole array is decoded at construction (`readArray`); `none` = the array does
-               not decode (truncated, a wrong type, a request `Setup` refuses), `some es` = its elements. What follows the
-               array is never read;
+* `array es trailing` - the first token is `[`: the whole array is decoded at construction (`readArray`); `none` = the array
+               does not decode (truncated, a wrong type, a request `Setup` refuses), `some es` = its elements;
+               `trailing` = something other than white space follows the array. The tree as found (`fixed = false`) never
+               reads what follows the array - a file `[…]{"broken` is accepted -, the repaired `readArray`
+               (fixes/C13-jsonline-array-trailing-data.diff, `fixed = true`) refuses the file;
 * `stream is`- the first token is `{`: every `Scan` decodes the next value (`d.decoder.Decode(&da)`); `is` lists what the
                successive calls of a fresh decoder give, up to the clean end of the file (`io.EOF`) or the first error.
 
@@ -30,7 +32,7 @@ inductive JItem where
 
 inductive JSrc where
   | refused
-  | array (elems : Option (List Bytes))
+  | array (elems : Option (List Bytes)) (trailing : Bool)
   | stream (items : List JItem)
   deriving Repr, DecidableEq
 
@@ -94,11 +96,11 @@ def jlArrayRun (elems : List Bytes) (passes limit : Nat) : Run :=
 def ctorErr : Run := ⟨[], .err "ctor", []⟩
 
 /-- the http provider over a jsonline file (`pre` = `preload`: the file is decoded completely before anything is delivered) -/
-def jsonlineRun (src : JSrc) (pre : Bool) (passes limit : Nat) : Run :=
+def jsonlineRun (fixed : Bool) (src : JSrc) (pre : Bool) (passes limit : Nat) : Run :=
   match src with
   | .refused => ctorErr
-  | .array none => ctorErr
-  | .array (some elems) => jlArrayRun elems passes limit
+  | .array none _ => ctorErr
+  | .array (some elems) trailing => if fixed ∧ trailing then ctorErr else jlArrayRun elems passes limit
   | .stream items =>
     let one := jlItems items
     let one := if pre ∧ one.end_ ≠ .ok then { one with entries := [] } else one
